@@ -30,9 +30,19 @@ int imports_obj_verify(const uint8_t *buffer, int file_size)
 
   const uint8_t e_ident[] = { 0x7f, 0x45, 0x4c, 0x46, };
 
+  if (file_size < (int)sizeof(ElfHeader32)) { return -1; }
+
   for (i = 0; i < 4; i++)
   {
     if (buffer[i] != e_ident[i]) { return -1; }
+  }
+
+  // Only 32 bit little endian objects can be read by the code below.
+  const ElfHeader32 *elf_header = (const ElfHeader32 *)buffer;
+
+  if (elf_header->e_ident_class != 1 || elf_header->e_ident_data != 1)
+  {
+    return -1;
   }
 
   return 0;
